@@ -150,6 +150,7 @@ def qcow2_spec(draw, tier="quick", layer=0, size_clusters=None, cluster_bits=Non
     comp_far = draw(st.sampled_from([0, 0, 0, (1 << csize_shift) - 64 * cs, 1 << (csize_shift - 1)])) if has_comp else 0
     spec = {
         "version": version, "cluster_bits": cb, "size": size, "ext_l2": ext, "data_file": data_file,
+        "data_file_named": draw(st.sampled_from([True, True, False])),
         "clusters": clusters, "l2_interleave": interleave, "l2_slots": l2_slots, "l2_reverse": draw(st.booleans()),
         "meta_order": draw(st.permutations(["l1", "refcount", "snap", "l2"])), "meta_gap": draw(st.sampled_from([0, 0, 1])),
         "far_base": draw(st.sampled_from(far_pool)), "copied": draw(st.booleans()), "l1_extra": draw(st.sampled_from([0, 0, 1, 3])),
